@@ -1,0 +1,22 @@
+//go:build verif
+
+// Read-only hook for the C16 verification harness in /verif (allocation-free
+// routing): which tree owns a context. Only compiled with -tags verif; touches
+// no existing code. (The master copy lives in /verif/checks/C16.py, which
+// installs it into a scratch tree under test that does not have it yet.)
+
+package fox
+
+// VerifCtxOwner reports about a context handed out by this router (to a
+// handler by ServeHTTP, by Lookup, by CloneWith): whether the tree it belongs
+// to (c.tree: the tree whose pool it was taken from and whose maxParams /
+// depth sized its buffers in allocateContext) is the tree currently published,
+// and the current capacities of its three buffers. ok is false for a Context
+// that is not a router context. It allocates nothing.
+func (fox *Router) VerifCtxOwner(c Context) (owned bool, params, tsrParams, skipNds int, ok bool) {
+	cc, is := c.(*cTx)
+	if !is || cc == nil {
+		return
+	}
+	return cc.tree == fox.getRoot(), cap(*cc.params), cap(*cc.tsrParams), cap(*cc.skipNds), true
+}
